@@ -594,11 +594,13 @@ def run(ctx):
         g = mk_gfa(ver)
         out = eval_function(repo, f_al, [g, mk_line("S", "gfa1")],
                             hooks=DH(repo))
-        ok = out[0] == "return" and names(out[2]) == [want]
+        # (only the adders count: add_line may also keep state of its own)
+        disp = [n for n in names(out[2]) if n in DH.stubs]
+        ok = out[0] == "return" and disp == [want]
         ctx.oblige(ok)
         if not ok:
             ctx.violation(R, f_al.short, "version=%s" % ver,
-                          "dispatches to %r" % names(out[2]))
+                          "dispatches to %r" % disp)
     ctx.instance(R)
     out = eval_function(repo, f_al, [mk_gfa(None), None], hooks=DH(repo))
     ok = out[0] == "return" and not out[2]
